@@ -151,6 +151,8 @@ class SampleListBase:
         if not (samples or mean or std):
             raise ValueError("Neither samples nor mean nor standard deviation shall be written.")
 
+        # All tasks must have looked for an existing file before the master creates it
+        _barrier(self.comm)
         if self.MPI_master:
             f = h5py.File(file_name, "w")
             if isinstance(op, Operator):
